@@ -10,7 +10,7 @@ def _bt_nth_parse(ctx):
     return bounded_text.nth_parse(ctx)
 
 BOUNDED = [hub_bounded('C02-nth-hub', ['basic', 'nows', 'multiroot', 'identical', 'small', 'api', 'plain', 'svghtml'], ['nth']), _bt_nth_parse]
-TRUSTED = [A_PY, A_BS4, A_IR, A_SMT, 'get_children (reversed / Tag-only child sequence) and create_fake_parent are under assumed contracts (bounded)',
+TRUSTED = [A_PY, A_BS4, A_IR, A_SMT, 'create_fake_parent is under an assumed contract (a stand-in holding exactly the detached element)',
            'An+B micro-syntax to integers (parse_pseudo_nth) is bounded, not proved']
 ASSUMPTIONS = TRUSTED
 EXPLANATION = ('Proved for all integers a, b, all sibling sequences and all of-S lists: match_nth == sem_nth, where the position is the number of qualifying '
@@ -22,3 +22,5 @@ TIMEOUT_MS = {'quick': 20000, 'thorough': 120000}
 MUSTFAIL_PER_FN = {'quick': 1, 'thorough': 6}
 
 TIMEOUT_MS = {'quick': 60000, 'thorough': 240000}
+
+FUNCTIONS = FUNCTIONS + [q for q in KIDS if q not in FUNCTIONS]
